@@ -116,3 +116,9 @@ fn k07_totals() {
     assert!((te == 0) == (errs == 0), "the exit status is non-zero exactly when an error diagnostic exists");
     core::mem::forget(all);
 }
+
+// (A C13 kernel - Diagnostics::into_updated with an empty Ast, no files, ONE span-less, scope-less diagnostic and one
+// concrete --allow value - was built and dropped: even a single fully concrete case did not leave symbolic execution in
+// 25 min. The diagnostic is read back from the heap vector it was moved into, its Option<span>/Option<scope> tags are no
+// longer constants for CBMC, and the file-attribute and entity-scope branches - find_element::<dyn Entity>, all_attributes
+// over every Attributable implementation - become reachable.)
